@@ -179,3 +179,8 @@ def perturb(c, rnd):
         c2["o"] = round(rnd.uniform(-10, 10), 2)
         c2["report"] = rnd.choice(REPORTS)
     return c2
+
+
+# living-object histories built from the step-wise cases above (harness/living.py)
+import living  # noqa: E402
+living.install(globals())
